@@ -1,28 +1,48 @@
 #[macro_use]
 pub mod common;
-pub mod c01;
-pub mod c02;
-pub mod c05;
-pub mod c06;
-pub mod c07;
-pub mod c08;
-pub mod c09;
-pub mod c10;
-pub mod c11;
-pub mod c12;
-pub mod c12z;
-pub mod c13;
 pub mod c15;
 pub mod c16;
-pub mod c17;
-pub mod c18;
-pub mod c19;
-pub mod chist;
 pub mod fuzz;
 pub mod types;
 
+// Everything else is only needed by the driver binary (feature `full`, on by default); the
+// cargo-fuzz targets link the slim library.
+#[cfg(feature = "full")]
+pub mod c01;
+#[cfg(feature = "full")]
+pub mod c02;
+#[cfg(feature = "full")]
+pub mod c05;
+#[cfg(feature = "full")]
+pub mod c06;
+#[cfg(feature = "full")]
+pub mod c07;
+#[cfg(feature = "full")]
+pub mod c08;
+#[cfg(feature = "full")]
+pub mod c09;
+#[cfg(feature = "full")]
+pub mod c10;
+#[cfg(feature = "full")]
+pub mod c11;
+#[cfg(feature = "full")]
+pub mod c12;
+#[cfg(feature = "full")]
+pub mod c12z;
+#[cfg(feature = "full")]
+pub mod c13;
+#[cfg(feature = "full")]
+pub mod c17;
+#[cfg(feature = "full")]
+pub mod c18;
+#[cfg(feature = "full")]
+pub mod c19;
+#[cfg(feature = "full")]
+pub mod chist;
+
 use crate::engine::CheckDef;
 
+#[cfg(feature = "full")]
 pub fn all() -> Vec<(&'static str, fn() -> Vec<CheckDef>)> {
     vec![
         ("C01", c01::checks as fn() -> Vec<CheckDef>),
@@ -47,3 +67,11 @@ pub fn all() -> Vec<(&'static str, fn() -> Vec<CheckDef>)> {
         ("C20", chist::c20_checks),
     ]
 }
+
+#[cfg(not(feature = "full"))]
+pub fn all() -> Vec<(&'static str, fn() -> Vec<CheckDef>)> {
+    vec![("C15", c15::checks as fn() -> Vec<CheckDef>), ("C16", c16::checks)]
+}
+
+#[cfg(feature = "full")]
+pub mod fuzzstage;
